@@ -61,6 +61,13 @@ func TestVerifC03(t *testing.T) {
 			}
 		}
 	}
+	// every PREF64 prefix length 0..128 (canonical address for that length), alone and next to other
+	// options: whatever config.Parse accepts must be a length the option can carry.
+	for bits := 0; bits <= 128; bits++ {
+		vbC03Case(t, out, fmt.Sprintf("c03-pref64-len-%d", bits),
+			fmt.Sprintf("[[interfaces]]\nname = \"eth0\"\nadvertise = true\n[[interfaces.prefix]]\nprefix = \"::/64\"\n[[interfaces.pref64]]\nprefix = %q\n",
+				vbPref64Len(bits)))
+	}
 	n := 1500
 	if verifh.Thorough() {
 		n = 30000
